@@ -70,7 +70,7 @@ def of_real(t):
 
 def gen_trees(ctx, n):
     rng = ctx.rng
-    cats = {'en': gen_cat.inventory('en'), 'ja': gen_cat.inventory('ja')}
+    cats = {'en': gen_cat.tree_cats('en'), 'ja': gen_cat.tree_cats('ja')}
     out = []
     for i in range(n):
         lang = 'ja' if i % 4 == 3 else 'en'
